@@ -69,7 +69,7 @@ func runInstrumented(w pWorkload, clk *VClock, points map[string]bool, ackImages
 	rec := &pRecord{Root: mkScratch("c02"), Hits: map[string]int{}}
 	dir := filepath.Join(rec.Root, "data")
 	_ = os.MkdirAll(dir, 0o755)
-	run, err := newPRunner(dir, w.Policy, false, false, clk, extra...)
+	run, err := newPRunner(dir, spellPolicy(w.Policy, len(w.Ops)), false, false, clk, extra...)
 	if err != nil {
 		rec.Err = err.Error()
 		return rec
@@ -166,6 +166,13 @@ func checkC02(ctx *Ctx) {
 			block := []pOp{{Caller: "emb", SelDB: &db}, {Caller: "emb", Argv: []string{"SET", "k1", "before-rewrite"}}, rw,
 				{Caller: "emb", Argv: []string{"SET", "k2", "after-rewrite"}}, {Caller: "emb", Argv: []string{"RPUSH", "k3", "after-rewrite"}}}
 			w.Ops = append(w.Ops[:at], append(block, w.Ops[at:]...)...)
+			if (wi/6)%2 == 0 {
+				// and a second rewrite by the same process, later on (the preamble file is rewritten in place)
+				at2 := at + len(block) + r.Intn(len(w.Ops)-at-len(block)+1)
+				block2 := []pOp{{Caller: "emb", Argv: []string{"RPUSH", "k3", "between-rewrites"}}, {Caller: "emb", Argv: []string{"REWRITEAOF"}},
+					{Caller: "emb", Argv: []string{"RPUSH", "k3", "after-second-rewrite"}}}
+				w.Ops = append(w.Ops[:at2], append(block2, w.Ops[at2:]...)...)
+			}
 		}
 		ctx.SetCurrent(fmt.Sprintf("C02 workload %s policy %s seed %d", w.Name, policy, ctx.Seed))
 		c02Workload(ctx, w, wi)
@@ -357,6 +364,14 @@ func reDurable(dir, policy string, clk *VClock, seed int64) string {
 			return "crash after recovery: " + crash
 		}
 		cmds = append(cmds, Step{Argv: argv}.String())
+		if i == 0 && seed%3 == 0 {
+			// a log rewrite by the recovered process (it restored a log, and possibly a preamble, first)
+			if why := rewriteAndWait(in); why != "" {
+				in.Close()
+				return "REWRITEAOF after recovery: " + why
+			}
+			cmds = append(cmds, "REWRITEAOF")
+		}
 	}
 	want := CanonDump(in.S.VerifDump(), clk.NowNs())
 	in.Close()
@@ -481,4 +496,25 @@ func c02LogOrder(ctx *Ctx) {
 			}
 		}
 	}
+}
+
+// rewriteAndWait compacts the log (the command is synchronous) and reports a failure as text.
+func rewriteAndWait(in *Inst) string {
+	v, _, crash := in.Do("REWRITEAOF")
+	if crash != "" {
+		return crash
+	}
+	if v.IsError() {
+		return v.String()
+	}
+	return ""
+}
+
+// spellPolicy: the sync policy is accepted in any letter case (the configuration loader, the embedded
+// API and the log store all compare case-insensitively), so "Always" must sync like "always".
+func spellPolicy(policy string, salt int) string {
+	if policy != "always" {
+		return policy
+	}
+	return []string{"always", "Always", "ALWAYS"}[salt%3]
 }
